@@ -23,7 +23,8 @@ for c in CHECKS:
         "engine": c.get("engine", "lean4-proof+correspondence"),
         "level_claimed": {"category": c.get("category", "proof"), "text": c["text"], "design_ref": c.get("design_ref", "DESIGN.md section 6, " + pid)},
         "level_note": c["note"],
-        "technique": c["technique"],
+        "technique": c["technique"] + (" + transcription pins (digests of the Go declarations the hand-written model was transcribed from, regenerated on every run; theorem GN.Props.Pins.%s.sources_as_transcribed)" % pid
+                                        if os.path.exists(os.path.join(VERIF, "lean", "GN", "Props", "Pins", pid + ".lean")) else ""),
     })
 m = {
     "version": 1,
@@ -38,7 +39,7 @@ m = {
     "engines": [
         {"name": "lean4-proof+correspondence", "path": "/verif/lean, /verif/harness, /verif/check",
          "serves_properties": sorted(claimed),
-         "kind_free_text": "Lean 4 theorems about an executable model; model tied to /repo by (a) definitions regenerated from the Go source by verif-extract on every run and (b) differential execution of model and real code through a line protocol"},
+         "kind_free_text": "Lean 4 theorems about an executable model; model tied to /repo by (a) definitions regenerated from the Go source by verif-extract on every run and (b) differential execution of model and real code through a line protocol and (c) transcription pins: a digest per Go declaration, regenerated on every run, compared by theorem with the digest the hand-written model was last read against"},
     ],
     "checks": checks,
     "not_applicable": na,
